@@ -477,7 +477,10 @@ def run(ctx):
         "C23/Model.v is hand-written and tied by the trace correspondence of this run",
         "rename(2) replaces the destination atomically; the old content is decodable; crash = process death at an "
         "I/O call boundary (no torn writes inside one write(2) to the temporary file matter for the target)",
-        "determinism is established by sampling (partial), not by proof"]
+        "determinism: the iteration audit is syntactic and name-based (sets arise only from set constructors in "
+        "recompiler.py, cffi_opcode.py, model.py, cparser.py; dict order is insertion order, CPython >= 3.7); that the "
+        "real emitter is an instance of the abstract emitter of C23_emit_independent_of_set_order is not proved; bytes "
+        "are sampled across hash seeds"]
     audit = getattr(ctx, "_c23_audit_problems", [])
     evaluate(ctx, generate(ctx))
     if not [v for v in ctx.violations if v[2] is None] and (
@@ -490,9 +493,10 @@ def run(ctx):
 
 
 MANIFEST = dict(
-    technique="Coq proof about the file-operation trace of _make_c_or_py_source with its decisive parts re-extracted "
-              "from the source on every run + crash-point enumeration and I/O-trace correspondence on the real function "
-              "+ sampling of determinism across hash seeds",
+    technique="Coq proofs about (1) the file-operation trace of _make_c_or_py_source with its decisive parts re-extracted "
+              "from the source each run and (2) a regenerated list of every set use / dict iteration / process-dependent "
+              "call of the emitter, each class covered by an order-independence theorem and composed over an abstract "
+              "emitter + crash-point enumeration, I/O-trace correspondence and hash-seed sampling on the real code",
     text="Proof (any old/new content): identical content without '\\r' => no mutating operation and result False; 'not "
          "updated' only if the text is the same; after any prefix of the operations of the POSIX path the target holds "
          "the old or the new content; on completion target = new and no temporary is left. Refuted for content with "
